@@ -145,7 +145,7 @@ def molecules(ctx):
     rng = ctx.rng
     out = list(molgen.handmade())
     out += [(t, molgen.parse(t)) for t in SYMMETRIC + STEREO_PAIRS + ISOTOPES + EXPLICIT_H_STEREO + ez_catalogue() + OLIGOMERS
-            + RADICALS + COORDINATED + ALLENES + PI_STEREO + RING_EZ + oligomers(rng, 30 if ctx.quick else 200) if molgen.parse(t) is not None]
+            + RADICALS + COORDINATED + ALLENES + PI_STEREO + RING_EZ + ODD_GROUPS + oligomers(rng, 30 if ctx.quick else 200) if molgen.parse(t) is not None]
     out += molgen.corpus(rng, 300 if ctx.quick else 1500)
     n_small = 5 if ctx.quick else 6
     graphs = [g for k in range(2, n_small + 1) for g in molgen.unlabeled_small_graphs(k)]
@@ -651,6 +651,16 @@ def stereo_elements(mol):
     return out
 
 
+def odd_equivalent_elements(mol, cls):
+    """an odd number (>= 3) of labelled stereo elements of one kind that are constitutionally equivalent (independent
+    oracle): `__differentiation` only looks at groups of even size, so their configurations never split the classes."""
+    groups = {}
+    for kind, where, _ in stereo_elements(mol):
+        key = (kind, cls[where]) if kind != 'cis-trans' else (kind, tuple(sorted((cls[where[0]], cls[where[1]]))))
+        groups[key] = groups.get(key, 0) + 1
+    return any(v >= 3 and v % 2 for v in groups.values())
+
+
 def gap_stereo(mol, cls):
     """recorded gap (i): a labelled stereo element with two constitutionally equivalent substituents."""
     for kind, where, groups in stereo_elements(mol):
@@ -1058,6 +1068,15 @@ RING_EZ = [
 ]
 
 
+# an ODD number (3, 5) of constitutionally equivalent stereo elements with unlike configurations
+ODD_GROUPS = [
+    'N(C[C@H](C)O)(C[C@H](C)O)C[C@@H](C)O', 'N(C[C@H](C)O)(C[C@H](C)O)C[C@H](C)O', 'C[C@H](Cl)CC(C[C@H](C)Cl)C[C@@H](C)Cl',
+    'C/C=C/CC(C/C=C/C)C/C=C\\C', 'C/C=C/CC(C/C=C/C)C/C=C/C', 'B(O[C@H](C)CC)(O[C@H](C)CC)O[C@@H](C)CC',
+    'C[C@H](O)CC.C[C@H](O)CC.C[C@@H](O)CC', 'P(/C=C/C)(/C=C/C)/C=C\\C', 'c1c(C[C@H](C)O)cc(C[C@H](C)O)cc1C[C@@H](C)O',
+    'CC=[C@]=CCN(CC=[C@]=CC)CC=[C@@]=CC', 'C[C@H](F)C(C)([C@H](C)F)[C@@H](C)F',
+]
+
+
 def rdkit_canonical(text):
     """the other toolkit's own canonical isomeric SMILES of a spelling: the independent referee of 'same stereoisomer'"""
     from rdkit import Chem
@@ -1452,6 +1471,8 @@ def isotope_decorations(mol, limit=3):
 
 KF_COMPONENT = 'C01/canonical-string-depends-on-numbering/order-of-components-the-refinement-cannot-tell-apart'
 KF_TIE = 'C01/canonical-string-depends-on-numbering/tie-between-same-class-atoms-not-exchangeable-by-symmetry'
+KF_ODD = 'C01/canonical-string-depends-on-numbering/odd-number-of-equivalent-stereo-elements-not-differentiated'
+KNOWN = (KF_COMPONENT, KF_TIE, KF_ODD)
 
 
 def describe(mol):
@@ -1485,6 +1506,8 @@ def classify_failure(mol, s0, s1):
     w = rigid_tie(atoms, adj, cls)
     if w is not None:
         return KF_TIE
+    if odd_equivalent_elements(mol, cls):
+        return KF_ODD
     has_stereo = bool(stereo_elements(mol))
     return 'C01/canonical-string-differs/' + ('stereo' if has_stereo else 'no-stereo') + \
         ('/all-atoms-distinct' if len(set(cls.values())) == len(cls) else '/symmetric-but-exchangeable')
@@ -1556,7 +1579,7 @@ def compare(ctx, name, base, s0, h0, kind, other, detail, mapping=None, history=
     else:
         sig = classify_failure(base, s0, s1)
     ctx.cov['disagreements_checked'] += 1
-    if sig in (KF_COMPONENT, KF_TIE) and (sig, name) not in _state.setdefault('kf_noted', set()) and len(_state['kf_noted']) < 12:
+    if sig in KNOWN and (sig, name) not in _state.setdefault('kf_noted', set()) and len(_state['kf_noted']) < 12:
         _state['kf_noted'].add((sig, name))
         ctx.notes.append(f'known finding met in the relational stream ({sig.split("/")[-1]}): {name} [{kind}]: {s0} vs {s1}')
     if history is not None:
@@ -1573,7 +1596,7 @@ def compare(ctx, name, base, s0, h0, kind, other, detail, mapping=None, history=
                  {'kind': 'toolkit-spellings', 'a': spellings[0], 'b': spellings[1], 'str_a': s0, 'str_b': s1})
         return False
     shrunk_from = None
-    if sig not in (KF_COMPONENT, KF_TIE) and s1 != s0 and not s1.startswith('<') and len(base) > 4 \
+    if sig not in KNOWN and s1 != s0 and not s1.startswith('<') and len(base) > 4 \
             and _state.setdefault('shrinks', 0) < 4 and not any(f.signature == sig for f in ctx.failures):
         _state['shrinks'] += 1
         try:
@@ -1612,7 +1635,7 @@ def compare_formats(ctx, name, base, other, mapping):
         if f0 == f1:
             continue
         sig = classify_failure(base, f0, f1)
-        if sig not in (KF_COMPONENT, KF_TIE):
+        if sig not in KNOWN:
             sig = sig.replace('canonical-string-differs', f'format-{spec}-differs')
         ctx.cov['disagreements_checked'] += 1
         ctx.fail(sig, f'format(mol, {spec!r}): {name}: {f0!r} vs {f1!r}',
@@ -1626,7 +1649,7 @@ def relational_molecules(ctx):
     rng = ctx.rng
     out = []
     for s in molgen.HANDMADE + SYMMETRIC + STEREO_PAIRS + ISOTOPES + EXPLICIT_H_STEREO + ez_catalogue() + OLIGOMERS \
-            + RING_JUNCTION_STEREO + RADICALS + COORDINATED + DONORS + ALLENES + RING_EZ + multi_component_stereo(rng, 30 if ctx.quick else 200) \
+            + RING_JUNCTION_STEREO + RADICALS + COORDINATED + DONORS + ALLENES + RING_EZ + ODD_GROUPS + multi_component_stereo(rng, 30 if ctx.quick else 200) \
             + oligomers(rng, 50 if ctx.quick else 250):
         m = molgen.parse(s)
         if m is not None:
@@ -1866,11 +1889,11 @@ def search(ctx):
     pools = [first, [(s, s, molgen.parse(s)) for s in cat if molgen.parse(s) is not None], deco]
     before = len(ctx.failures)
     cross_toolkit(ctx, nrand=40)
-    if any(f.signature not in (KF_COMPONENT, KF_TIE) for f in ctx.failures[before:]):
+    if any(f.signature not in KNOWN for f in ctx.failures[before:]):
         return
     for pool in pools:
         relational(ctx, pool, nvar=12)
-        if any(f.signature not in (KF_COMPONENT, KF_TIE) for f in ctx.failures[before:]) or time.time() > t_end:
+        if any(f.signature not in KNOWN for f in ctx.failures[before:]) or time.time() > t_end:
             return
     smis = molgen.corpus_smiles()
     idx = list(range(len(smis)))
@@ -1882,7 +1905,7 @@ def search(ctx):
         if m is None:
             continue
         relational(ctx, [(f'corpus[{i}]', smis[i], m)], nvar=6)
-        if any(f.signature not in (KF_COMPONENT, KF_TIE) for f in ctx.failures[before:]):
+        if any(f.signature not in KNOWN for f in ctx.failures[before:]):
             return
 
 
